@@ -339,7 +339,12 @@ func execDet(h *vh.H, op string, args []*j5sgen.Node) string {
 	}
 	want := strings.Join(ref.lines(), "\n")
 	for k := 0; k < procs; k++ {
-		cmd := exec.Command(os.Args[0], "child", "det")
+		// /proc/self/exe stays valid when a concurrent check rebuilds (unlinks) the harness binary
+		self := "/proc/self/exe"
+		if _, err := os.Stat(self); err != nil {
+			self = os.Args[0]
+		}
+		cmd := exec.Command(self, "child", "det")
 		cmd.Stdin = strings.NewReader(op + "\n")
 		cmd.Env = append(os.Environ(), "COMPILEH_CHILD=1")
 		outb, err := cmd.Output()
